@@ -31,7 +31,16 @@ sampling may give up after its documented number of retries, so "still suggests"
 100 (50) rejected draws in a row is below 1e-9.
 
 Clauses with scenarios of their own (``KNOWN_OPEN``) are families in which the unchanged tree does not follow the
-statement; they are kept apart so that every other clause stays meaningful.
+statement; they are kept apart so that every other clause stays meaningful:
+  * dehb/...fewer-survivors...: DEHB answers None (ends the experiment) or raises KeyError(None) when a rung has fewer
+    survivors than the next rung has slots (same root as the C05/C06 findings on DEHB);
+  * tuner/...synchronous-rung-has-fewer-survivors...: synchronous Hyperband then promotes a failed trial (documented in
+    ``get_top_list``), but ``TrialBackend.resume_trial`` only resumes paused trials: ``Tuner.run`` aborts with
+    "AssertionError: Cannot resume trial_id .. from status 'Failed'";
+  * pbt/...checkpoint-of-a-failed-trial: PBT has no ``on_trial_error``; a failed trial stays in the population and
+    is picked as the trial to clone from;
+  * median-rule/...: ``MedianStoppingRule`` does not pass ``on_trial_error`` (nor add / complete / remove) on to the
+    scheduler it wraps, so the wrapped searcher never learns about the failure and suggests the configuration again.
 
 Bounded stand-in, never counted as proved.
 """
@@ -41,7 +50,6 @@ sys.modules.setdefault("yahpo_gym", None)
 
 import contextlib
 import io
-import itertools
 import logging
 import os
 import re
@@ -69,6 +77,7 @@ T_NAMES = "tuner/error-for-exceeded-limit-names-a-trial-that-failed"
 T_NORESUME = "tuner/failed-or-externally-stopped-trial-is-never-resumed"
 T_NOREP = "tuner/configuration-of-a-failed-trial-is-not-started-again-when-searcher-promises-no-repeats"
 T_OTHERS = "tuner/every-other-trial-is-served-to-its-scripted-end-or-the-scheduler-s-decision"
+T_SYNC_FEW = "tuner/run-goes-on-when-a-synchronous-rung-has-fewer-survivors-than-the-next-rung-has-slots"
 S_NOEXC = "searcher/notification-and-later-suggestions-raise-no-exception"
 S_NOREP = "searcher/failed-configuration-is-never-suggested-again-when-no-repeats-are-promised"
 S_NONE = "searcher/answer-is-none-when-only-failed-or-used-configurations-remain"
@@ -92,25 +101,24 @@ Y_NOFAILED = "sync/failed-trial-is-not-promoted-while-enough-survivors-exist"
 Y_JOBS = "sync/every-job-goes-to-the-first-open-bracket-with-a-free-slot-at-that-rung-s-level"
 Y_DECIDE = "sync/trial-continues-below-and-pauses-or-stops-exactly-at-its-rung-level-after-failures"
 D_FEW = "dehb/keeps-serving-jobs-without-raising-when-a-rung-has-fewer-survivors-than-the-next-rung-has-slots"
-D_POOL = "dehb/keeps-serving-jobs-without-raising-when-jobs-fail-before-three-have-succeeded"
 P_NOEXC = "pbt/notification-and-later-decisions-raise-no-exception"
 P_OTHERS = "pbt/population-records-of-all-other-trials-are-untouched-by-the-failure"
 P_DECIDE = "pbt/decisions-for-other-trials-stay-continue-or-stop-and-stop-at-max-resource"
 P_SOURCE = "pbt/no-trial-is-told-to-start-from-the-checkpoint-of-a-failed-trial"
 M_NOEXC = "moasha-median/notification-and-later-decisions-raise-no-exception"
 M_OTHERS = "moasha-median/recorded-results-of-all-other-trials-are-untouched-by-the-failure"
-M_DECIDE = "moasha-median/decisions-for-other-trials-are-those-of-a-run-in-which-the-failed-trial-just-went-silent"
+M_DECIDE = "moasha-median/decisions-for-other-trials-stay-within-the-rule-after-failures"
 M_MEDIAN_NOREP = "median-rule/failed-configuration-is-never-suggested-again-when-the-wrapped-searcher-promises-it"
 
 CLAUSES = [
-    T_ONCE, T_QUIET, T_GOES_ON, T_LIMIT, T_NAMES, T_NORESUME, T_NOREP, T_OTHERS,
+    T_ONCE, T_QUIET, T_GOES_ON, T_LIMIT, T_NAMES, T_NORESUME, T_NOREP, T_OTHERS, T_SYNC_FEW,
     S_NOEXC, S_NOREP, S_NONE, S_SOME, G_GONE, G_KEEP, G_LISTED, G_DATA,
     H_NOEXC, H_RUNGS, H_RUNNING, H_CLEAN, H_NORESUME, H_DECIDE, H_PROMO,
-    Y_NOEXC, Y_SLOT, Y_OTHERS, Y_NOWAIT, Y_NOFAILED, Y_JOBS, Y_DECIDE, D_FEW, D_POOL,
+    Y_NOEXC, Y_SLOT, Y_OTHERS, Y_NOWAIT, Y_NOFAILED, Y_JOBS, Y_DECIDE, D_FEW,
     P_NOEXC, P_OTHERS, P_DECIDE, P_SOURCE, M_NOEXC, M_OTHERS, M_DECIDE, M_MEDIAN_NOREP,
 ]
 # families of their own: the unchanged tree is known (or suspected) not to follow the statement there
-KNOWN_OPEN = {D_FEW, D_POOL, P_SOURCE, M_MEDIAN_NOREP}
+KNOWN_OPEN = {D_FEW, P_SOURCE, M_MEDIAN_NOREP, T_SYNC_FEW}
 
 
 class _Abort(Exception):
@@ -131,8 +139,11 @@ class Recorder:
         fam = ctx.get("family", "?")
         self.stats[fam] = self.stats.get(fam, 0) + 1
 
+    def tally(self, what):
+        self.stats[what] = self.stats.get(what, 0) + 1
+
     def sample(self, ctx):
-        if len(self.samples) < 4 and all(s.get("family") != ctx.get("family") for s in self.samples):
+        if ctx.get("family") in ("searcher-enumerated", "hyperband-enumerated", "sync-enumerated", "tuner-hyperband-promotion") and all(s.get("family") != ctx.get("family") for s in self.samples):
             self.samples.append(_js(ctx))
 
     def check(self, clause, ok, ctx, **details):
@@ -409,7 +420,7 @@ def _part_searchers(M, tier, rs):
                         ctx = dict(family="searcher-enumerated", **{k: (sorted(v) if isinstance(v, set) else v) for k, v in spec.items()})
                         _searcher_scenario(M, ctx, spec)
     # random: random failure sets over longer runs
-    for k in range(40 if quick else 300):
+    for k in range(120 if quick else 1000):
         name = ("random", "bayesopt", "grid")[k % 3]
         allow_dup = bool(rs.randint(2))
         size = None if name == "grid" or rs.rand() < 0.3 else int(rs.randint(1, 6))
@@ -425,3 +436,1288 @@ def _part_searchers(M, tier, rs):
         spec = dict(searcher="bayesopt", allow_dup=bool(k % 2), restrict=None, p2e=[], fail={1, 2} if k < 2 else {0, 3}, point="mixed", workers=1, n_ask=6, seed=k, num_init_random=2)
         ctx = dict(family="searcher-model-based", **{k2: (sorted(v) if isinstance(v, set) else v) for k2, v in spec.items()})
         _searcher_scenario(M, ctx, spec)
+
+
+# ---------------------------------------------------------------------------------------------------------------
+# part B: asynchronous HyperbandScheduler (stopping / promotion), random and GP multi-fidelity searcher
+# ---------------------------------------------------------------------------------------------------------------
+def _hb_snapshot(sched):
+    term = sched.terminator
+    rungs = []
+    for si, rsys in enumerate(term._rung_systems):
+        for rung in rsys._rungs:
+            for e in rung.data:
+                rungs.append((si, int(rung.level), str(e.trial_id), float(e.metric_val), bool(getattr(e, "was_promoted", False))))
+    running = [("bracket-of", str(t), int(b)) for t, b in term._task_info.items()]
+    for si, rsys in enumerate(term._rung_systems):
+        for t, rec in getattr(rsys, "_running", {}).items():
+            running.append(("job", si, str(t), rec.get("milestone"), rec.get("resume_from")))
+    for t, rec in sched._active_trials.items():
+        running.append(("decision", str(t), str(rec.trial_decision), int(rec.bracket)))
+    return {"rungs": sorted(rungs), "running": sorted(running, key=str)}
+
+
+def _quantile_verdict(values, own, q, mode):
+    """'yes' | 'no' | 'tie' | 'few': is ``own`` no worse than the promotion quantile of ``values`` (numpy linear)"""
+    if len(values) < 2:
+        return "few"
+    cutoff = float(np.quantile(np.asarray(values, dtype=float), q if mode == "min" else 1.0 - q))
+    if _close(own, cutoff):
+        return "tie"
+    return "yes" if (own < cutoff if mode == "min" else own > cutoff) else "no"
+
+
+def _hb_scenario(M, ctx, spec):
+    L = _lib()
+    D = L["SchedulerDecision"]
+    M.scenario(ctx)
+    M.sample(ctx)
+    typ, mode, max_t, grace, rf = spec["type"], spec["mode"], spec["max_t"], spec["grace"], spec["rf"]
+    finite = spec.get("finite", False)
+    cs = dict(_fin_space()) if finite else {"x": L["uniform"](0.0, 1.0), "y": L["uniform"](0.0, 1.0)}
+    cs[MRA] = max_t
+    options = {"debug_log": False}
+    if spec["searcher"] == "bayesopt":
+        options["num_init_random"] = 1000
+    try:
+        sched = L["HyperbandScheduler"](
+            cs, searcher=spec["searcher"], type=typ, metric=METRIC, mode=mode, resource_attr=RESOURCE, max_resource_attr=MRA,
+            grace_period=grace, reduction_factor=rf, brackets=spec["brackets"], searcher_data=spec["searcher_data"],
+            register_pending_myopic=spec.get("myopic", False), random_seed=spec["seed"], search_options=options, points_to_evaluate=[],
+        )
+    except Exception:
+        M.check(H_NOEXC, False, ctx, reason="constructor raised", traceback=_tb())
+        return
+    levels, r = [], grace
+    while r < max_t:
+        levels.append(r)
+        r *= rf
+    if not M.check(H_DECIDE, list(sched.rung_levels) == levels, ctx, reason="rung levels are not grace_period * reduction_factor^k below max_t", got=list(sched.rung_levels), expected=levels):
+        return
+    quant = {lv: lv / (levels[i + 1] if i + 1 < len(levels) else max_t) for i, lv in enumerate(levels)}
+    rs = np.random.RandomState(spec["seed"] * 7919 + 13)
+    W = spec["workers"]
+    T = {}  # trial_id -> record
+    ref = {lv: {} for lv in levels}  # level -> {trial_id: metric} of every report at that rung level
+    promoted = {lv: set() for lv in levels}
+    failed, failed_cfg, used_cfg = [], [], []
+    next_id, step, exhausted = 0, 0, False
+    forced = dict(spec.get("forced", {}))  # ordinal -> point
+    nfail_checks = 0
+
+    def milestones(rec):
+        return levels[rec["bracket"]:]
+
+    def verdict(level, tid, m):
+        """verdicts with and without the earlier entries of failed trials (both readings are legal)"""
+        everyone = [v for t, v in ref[level].items()]
+        healthy = [v for t, v in ref[level].items() if t not in failed or t == tid]
+        return {_quantile_verdict(everyone, m, quant[level], mode), _quantile_verdict(healthy, m, quant[level], mode)}
+
+    def lib_call(what, fn, **det):
+        try:
+            out = fn()
+        except Exception:
+            M.check(H_NOEXC, False, ctx, reason=what + " raised", traceback=_tb(), **dict(dict(step=step, failed_so_far=list(failed)), **det))
+            raise _Abort()
+        M.check(H_NOEXC, True, ctx)
+        return out
+
+    def do_suggest():
+        nonlocal next_id, exhausted
+        sugg = lib_call("suggest", lambda: sched.suggest(next_id), asking_for_trial=next_id)
+        if sugg is None:
+            exhausted = True
+            if finite:
+                allowed = [_hp(c) for c in _all6()]
+                M.check(S_NONE, all(c in used_cfg for c in allowed), ctx, reason="None although unused configurations remain", step=step, used=used_cfg)
+            return
+        if sugg.spawn_new_trial_id:
+            cfg = dict(sugg.config)
+            if finite:
+                M.check(S_NOREP, _hp(cfg) not in failed_cfg, ctx, reason="configuration of a failed trial suggested again", step=step, got=_hp(cfg), failed_configurations=failed_cfg)
+                used_cfg.append(_hp(cfg))
+            tr = _trial(next_id, cfg)
+            lib_call("on_trial_add", lambda: sched.on_trial_add(tr), trial=next_id)
+            bracket = int(sched._active_trials[str(next_id)].bracket)
+            T[next_id] = {"trial": tr, "status": "running", "epoch": 0, "bracket": bracket, "run_to": int(cfg[MRA]), "resumes": 0, "level": {}, "paused_at": None}
+            next_id += 1
+            return
+        tid = int(sugg.checkpoint_trial_id)
+        rec = T.get(tid)
+        ok = rec is not None and tid not in failed and rec["status"] == "paused"
+        if not M.check(H_NORESUME, ok, ctx, reason="resumed trial is failed / not paused / unknown", step=step, resumed=tid, status=None if rec is None else rec["status"], failed_so_far=list(failed)):
+            raise _Abort()
+        lv = rec["paused_at"]
+        vs = verdict(lv, tid, rec["level"][lv])
+        ok = lv in ref and tid not in promoted[lv] and bool(vs & {"yes", "tie"})
+        if not M.check(H_PROMO, ok, ctx, reason="resumed trial is worse than the promotion quantile of its rung (with and without the entries of failed trials), or was promoted from it before", step=step, resumed=tid, level=lv, metric=rec["level"][lv], rung=ref[lv], failed_so_far=list(failed), quantile=quant[lv]):
+            raise _Abort()
+        promoted[lv].add(tid)
+        cfg = dict(rec["trial"].config) if sugg.config is None else dict(sugg.config)
+        rec["trial"] = _trial(tid, cfg)
+        rec.update(status="running", run_to=int(cfg[MRA]), resumes=rec["resumes"] + 1)
+
+    def do_report(tid):
+        rec = T[tid]
+        e = rec["epoch"] + 1
+        m = float(rs.rand()) if not spec.get("monotone") else float((tid * 0.137 + e * 0.011) % 1.0)
+        rec["epoch"] = e
+        res = {METRIC: m, RESOURCE: e}
+        dec = lib_call("on_trial_result", lambda: sched.on_trial_result(rec["trial"], dict(res)), trial=tid, result=res)
+        ms = milestones(rec)
+        expected = {D.CONTINUE}
+        if typ == "stopping":
+            if e >= max_t:
+                expected = {D.STOP}
+            elif e in ms:
+                ref[e][tid] = m
+                rec["level"][e] = m
+                vs = verdict(e, tid, m)
+                expected = set()
+                if vs & {"yes", "tie", "few"}:
+                    expected.add(D.CONTINUE)
+                if vs & {"no", "tie"}:
+                    expected.add(D.STOP)
+        else:
+            if e >= rec["run_to"]:
+                expected = {D.STOP} if e >= max_t else {D.PAUSE}
+                if e in ref:
+                    ref[e][tid] = m
+                    rec["level"][e] = m
+        if not M.check(H_DECIDE, dec in expected, ctx, reason="decision differs from the rung rule", step=step, trial=tid, result=res, got=dec, expected=sorted(expected), rung=ref.get(e), failed_so_far=list(failed)):
+            raise _Abort()
+        if dec in (D.STOP, D.PAUSE):
+            lib_call("on_trial_remove", lambda: sched.on_trial_remove(rec["trial"]), trial=tid)
+            rec["status"] = "paused" if dec == D.PAUSE else "stopped"
+            rec["paused_at"] = e if dec == D.PAUSE else None
+
+    def do_fail(tid, why):
+        nonlocal nfail_checks
+        rec = T[tid]
+        before, gb = _hb_snapshot(sched), _gp_state(sched)
+        lib_call("on_trial_error", lambda: sched.on_trial_error(rec["trial"]), trial=tid, point=why)
+        after, ga = _hb_snapshot(sched), _gp_state(sched)
+        s = str(tid)
+        det = {"step": step, "failed_trial": tid, "point": why, "failed_before": list(failed)}
+        ob = [x for x in before["rungs"] if x[2] != s]
+        oa = [x for x in after["rungs"] if x[2] != s]
+        M.check(H_RUNGS, ob == oa, ctx, reason="rung entries of other trials changed", others_before=ob, others_after=oa, **det)
+        want = sorted((0, lv, str(t), v) for lv in levels for t, v in ref[lv].items() if t != tid and t not in failed)
+        got = sorted(x[:4] for x in oa if int(x[2]) not in failed)
+        M.check(H_RUNGS, want == got, ctx, reason="rung entries of the healthy trials are not the values they reported at rung levels", expected=want, got=got, **det)
+        ob = [x for x in before["running"] if s not in x[1:3]]
+        oa = [x for x in after["running"] if s not in x[1:3]]
+        M.check(H_RUNNING, ob == oa, ctx, reason="running records of other trials changed", others_before=ob, others_after=oa, **det)
+        mine = [x for x in after["running"] if s in x[1:3]]
+        still = [x for x in mine if x[0] in ("bracket-of", "job") or (x[0] == "decision" and x[2] == L["SchedulerDecision"].CONTINUE)]
+        M.check(H_CLEAN, not still, ctx, reason="failed trial is still recorded as a running job", records=still, **det)
+        _check_gp_failure(M, ctx, gb, ga, tid, [str(t) for t in failed], step)
+        nfail_checks += 1
+        M.tally("hyperband failure " + why)
+        failed.append(tid)
+        if finite and _hp(rec["trial"].config) not in failed_cfg:
+            failed_cfg.append(_hp(rec["trial"].config))
+        rec["status"] = "failed"
+
+    def point_holds(rec, point):
+        if point == "before":
+            return rec["resumes"] == 0 and rec["epoch"] == 0
+        if point == "between":
+            return rec["resumes"] == 0 and rec["epoch"] >= 1
+        if point == "resumed-before":
+            return rec["resumes"] >= 1 and rec["epoch"] == rec["paused_at"]
+        if point == "resumed-between":
+            return rec["resumes"] >= 1 and rec["epoch"] > rec["paused_at"]
+        return False
+
+    try:
+        for step in range(1, spec["steps"] + 1):
+            running = [t for t, rec in T.items() if rec["status"] == "running"]
+            # forced failures first (enumerated placements)
+            hit = [(t, forced[t]) for t in running if t in forced and point_holds(T[t], forced[t])]
+            if hit:
+                t, point = hit[0]
+                del forced[t]
+                do_fail(t, point)
+                continue
+            if len(running) < W and not exhausted and (not running or rs.rand() < 0.45):
+                do_suggest()
+                continue
+            if not running:
+                if exhausted:
+                    break
+                continue
+            t = running[int(rs.randint(len(running)))]
+            if t not in forced and rs.rand() < spec["pfail"]:
+                rec = T[t]
+                why = ("before" if rec["epoch"] == 0 else "between") if rec["resumes"] == 0 else ("resumed-before" if rec["epoch"] == rec["paused_at"] else "resumed-between")
+                do_fail(t, why)
+            else:
+                do_report(t)
+    except _Abort:
+        pass
+    return nfail_checks
+
+
+def _part_hyperband(M, tier, rs):
+    quick = tier == "quick"
+    geos = [(9, 1, 3), (8, 1, 2)]
+    n = 0
+    # enumerated placements: which trial fails x at which point of its life
+    for typ in ("stopping", "promotion"):
+        points = ("before", "between") if typ == "stopping" else ("before", "between", "resumed-before", "resumed-between")
+        for searcher in ("random", "bayesopt"):
+            for sd in ("rungs", "all"):
+                for point in points:
+                    for who in ((0,), (1,), (2,), (0, 2), (1, 3)) if quick else ((0,), (1,), (2,), (3,), (0, 1), (0, 2), (1, 3), (0, 1, 2)):
+                        n += 1
+                        if quick and searcher == "bayesopt" and n % 2:
+                            continue
+                        max_t, grace, rf = geos[n % 2]
+                        spec = dict(type=typ, searcher=searcher, searcher_data=sd, brackets=1 + (n % 3 == 0), mode=("min", "max")[n % 2], max_t=max_t, grace=grace, rf=rf, workers=3 + n % 2, steps=90 if point.startswith("resumed") else 60, pfail=0.0, seed=n % 11, forced={w: point for w in who}, myopic=(n % 4 == 1), monotone=point.startswith("resumed"))
+                        _hb_scenario(M, dict(family="hyperband-enumerated", **spec), spec)
+    # random interleavings
+    for k in range(150 if quick else 1200):
+        typ = ("stopping", "promotion")[k % 2]
+        searcher = "bayesopt" if k % 4 >= 2 else "random"
+        max_t, grace, rf = geos[int(rs.randint(2))]
+        spec = dict(type=typ, searcher=searcher, searcher_data=("rungs", "all")[int(rs.randint(2))], brackets=int(rs.randint(1, 3)), mode=("min", "max")[int(rs.randint(2))], max_t=max_t, grace=grace, rf=rf, workers=int(rs.randint(2, 6)), steps=int(rs.randint(60, 160)), pfail=float(rs.choice([0.03, 0.08, 0.2])), seed=int(rs.randint(0, 10 ** 4)), finite=(searcher == "random" and k % 6 < 2), myopic=bool(rs.randint(2)))
+        _hb_scenario(M, dict(family="hyperband-random", **spec), spec)
+
+
+# ---------------------------------------------------------------------------------------------------------------
+# part C: synchronous Hyperband, geometric variant, DEHB -- reference model of the brackets
+# ---------------------------------------------------------------------------------------------------------------
+class _SyncRef:
+    """Brackets as the statement describes them: the k-th bracket uses rung system k mod n; a job goes to the first
+    open bracket whose current rung has a slot that was not handed out yet, else a new bracket is opened; a rung is
+    complete when each of its slots has reported or failed; the next rung (size k) is filled with the k best
+    survivors (all survivors and any failed ones if fewer than k survived)."""
+
+    def __init__(self, systems, mode):
+        self.systems, self.mode, self.B = systems, mode, []
+
+    def _open(self):
+        bid = len(self.B)
+        b = {"id": bid, "rungs": self.systems[bid % len(self.systems)], "cur": 0, "assigned": 0, "reported": 0, "results": [], "await": [], "spare": 0, "lost": [], "below_failed": False, "nfailed": 0}
+        self.B.append(b)
+        return b
+
+    def next_bracket(self):
+        for b in self.B:
+            if b["cur"] < len(b["rungs"]) and b["assigned"] < b["rungs"][b["cur"]][0]:
+                return b
+        return self._open()
+
+    def size(self, b, r):
+        return b["rungs"][r][0] if r < len(b["rungs"]) else 0
+
+    def hand_out(self, b):
+        b["assigned"] += 1
+        return {"bracket": b["id"], "rung": b["cur"], "level": b["rungs"][b["cur"]][1]}
+
+    def result(self, job, tid, metric):
+        """metric None = failed"""
+        b = self.B[job["bracket"]]
+        assert job["rung"] == b["cur"], (job, b["cur"])
+        b["results"].append((tid, metric))
+        b["reported"] += 1
+        if metric is None:
+            b["nfailed"] += 1
+        if b["reported"] == b["rungs"][b["cur"]][0]:
+            res = b["results"]
+            b.update(cur=b["cur"] + 1, assigned=0, reported=0, results=[], nfailed=0)
+            if b["cur"] < len(b["rungs"]):
+                k = b["rungs"][b["cur"]][0]
+                surv = sorted(((m, t) for t, m in res if m is not None), reverse=(self.mode == "max"))
+                lost = [t for t, m in res if m is None]
+                b["below_failed"] = bool(lost)
+                if len(surv) >= k:
+                    b.update(spare=0, lost=list(lost))
+                    b["await"] = [t for _, t in surv[:k]]
+                else:
+                    b.update(spare=k - len(surv), lost=list(lost))
+                    b["await"] = [t for _, t in surv]
+
+
+def _sync_lib_view(sched, dehb):
+    """what the library has on record: pending slot of each trial, content of every rung that was opened"""
+    pend = {}
+    for t, v in sched._trial_to_pending_slot.items():
+        if dehb:
+            pend[t] = (int(v.bracket_id), int(v.rung_index), int(v.slot_index), int(v.level))
+        else:
+            pend[t] = (int(v[0]), int(v[1].rung_index), int(v[1].slot_index), int(v[1].level))
+    rungs = {}
+    for bid, br in enumerate(sched.bracket_manager._brackets):
+        for ri, (rung, level) in enumerate(br._rungs):
+            if isinstance(rung, list):
+                for si, (t, m) in enumerate(rung):
+                    rungs[(bid, ri, si)] = (t, None if m is None else ("nan" if np.isnan(m) else float(m)))
+    state = [(bid, int(br.current_rung), int(br.num_pending_slots())) for bid, br in enumerate(sched.bracket_manager._brackets)]
+    return {"pending": pend, "rungs": rungs, "state": state}
+
+
+def _sync_scenario(M, ctx, spec):
+    """spec: kind ('sync' | 'geometric' | 'dehb'), systems / geo / first, mode, searcher, workers, steps, pfail,
+    forced {job ordinal: point}, constrained (failures keep enough survivors), pause_resume, seed, open_clause"""
+    L = _lib()
+    D = L["SchedulerDecision"]
+    M.scenario(ctx)
+    M.sample(ctx)
+    kind, mode = spec["kind"], spec["mode"]
+    dehb = kind == "dehb"
+    pr = spec.get("pause_resume", True)
+    open_clause = spec.get("open_clause")
+    NOEXC = open_clause or Y_NOEXC
+    options = {"debug_log": False}
+    if spec["searcher"] == "bayesopt":
+        options["num_init_random"] = 1000
+    common = dict(metric=METRIC, mode=mode, resource_attr=RESOURCE, max_resource_attr=MRA, random_seed=spec["seed"], search_options=options)
+    try:
+        if kind == "sync":
+            systems = [list(map(tuple, s)) for s in spec["systems"]]
+            cs = {"x": L["uniform"](0.0, 1.0), "y": L["uniform"](0.0, 1.0), MRA: systems[0][-1][1]}
+            sched = L["SynchronousHyperbandScheduler"](cs, bracket_rungs=[list(s) for s in systems], searcher=spec["searcher"], **common)
+        elif kind == "geometric":
+            g, mx, rf, nb = spec["geo"]
+            systems = [[(int(a), int(b)) for a, b in s] for s in L["SynchronousHyperbandRungSystem"].geometric(g, mx, rf, nb)]
+            cs = {"x": L["uniform"](0.0, 1.0), "y": L["uniform"](0.0, 1.0), MRA: mx}
+            kw = dict(common, grace_period=g, reduction_factor=rf, searcher=spec["searcher"])
+            if nb is not None:
+                kw["brackets"] = nb
+            sched = L["SynchronousGeometricHyperbandScheduler"](cs, **kw)
+        else:
+            first = [tuple(x) for x in spec["first"]]
+            systems = [first[o:] for o in range(len(first))]
+            cs = {"x": L["uniform"](0.0, 1.0), "y": L["uniform"](0.0, 1.0), "z": L["uniform"](0.0, 1.0), MRA: first[-1][1]}
+            kw = dict(common, rungs_first_bracket=list(first), support_pause_resume=pr)
+            if spec["searcher"] != "random_encoded":
+                kw["searcher"] = spec["searcher"]
+            sched = L["DifferentialEvolutionHyperbandScheduler"](cs, **kw)
+    except Exception:
+        M.check(NOEXC, False, ctx, reason="constructor raised", traceback=_tb())
+        return
+    ref = _SyncRef(systems, mode)
+    rs = np.random.RandomState(spec["seed"] * 104729 + 5)
+    W = spec["workers"]
+    T, failed = {}, []
+    next_id, step, njobs = 0, 0, 0
+    forced = dict(spec.get("forced", {}))
+
+    def lib_call(what, fn, **det):
+        try:
+            out = fn()
+        except Exception:
+            M.check(NOEXC, False, ctx, reason=what + " raised", traceback=_tb(), **dict(dict(step=step, failed_so_far=list(failed)), **det))
+            raise _Abort()
+        if not open_clause:
+            M.check(NOEXC, True, ctx)
+        return out
+
+    def promotes(b):
+        """jobs of rung > 0 of this bracket continue a trial of the rung below"""
+        return (not dehb) or b["id"] == 0
+
+    def do_suggest():
+        nonlocal next_id, njobs
+        b = ref.next_bracket()
+        level = b["rungs"][b["cur"]][1]
+        want_resume = b["cur"] > 0 and promotes(b) and (not dehb or pr)
+        after_failure = b["cur"] > 0 and b["below_failed"]
+        clause = Y_NOWAIT if (after_failure or any(x["nfailed"] or x["below_failed"] for x in ref.B)) and (b["cur"] > 0 or len(ref.B) > 1) else Y_JOBS
+        det = {"step": step, "job_number": njobs, "expected_bracket": b["id"], "expected_rung": b["cur"], "expected_level": level, "expected_kind": "resume" if want_resume else "start", "failed_so_far": list(failed)}
+        sugg = lib_call("suggest", lambda: sched.suggest(next_id), **det)
+        if open_clause:
+            if not M.check(open_clause, sugg is not None, ctx, reason="suggest returned None (the tuner would end the experiment)", **det):
+                raise _Abort()
+        if sugg is None:
+            M.check(clause, False, ctx, reason="suggest returned None although the bracket rule prescribes a job", **det)
+            raise _Abort()
+        is_resume = not sugg.spawn_new_trial_id
+        got = {"kind": "resume" if is_resume else "start", "trial": int(sugg.checkpoint_trial_id) if is_resume else next_id, "told_to_run_to": None if sugg.config is None else sugg.config.get(MRA)}
+        if open_clause:
+            pass
+        elif is_resume != want_resume or got["told_to_run_to"] != level:
+            M.check(Y_NOWAIT if (want_resume and not is_resume) and after_failure else clause, False, ctx, reason="job differs from the one the bracket rule prescribes" + (" (the bracket still waits for the failed job?)" if want_resume and not is_resume else ""), got=got, **det)
+            raise _Abort()
+        else:
+            M.check(clause, True, ctx)
+        tid = got["trial"]
+        if is_resume:
+            rec = T.get(tid)
+            if rec is None or rec["status"] not in ("paused", "failed"):
+                M.check(clause, False, ctx, reason="resumed trial is not paused", got=got, **det)
+                raise _Abort()
+            if not open_clause:
+                if tid in b["await"]:
+                    b["await"].remove(tid)
+                    M.check(Y_NOFAILED, True, ctx)
+                    if after_failure:
+                        M.check(Y_NOWAIT, True, ctx)
+                elif tid in b["lost"] and b["spare"] > 0:
+                    b["spare"] -= 1  # documented: too few survivors, a failed trial fills the slot
+                    b["lost"].remove(tid)
+                elif tid in failed:
+                    M.check(Y_NOFAILED, False, ctx, reason="a failed trial is promoted although enough survivors exist", got=got, promotable=list(b["await"]), **det)
+                    raise _Abort()
+                else:
+                    M.check(Y_NOWAIT if after_failure else clause, False, ctx, reason="promoted trial is not among the best survivors of the rung below", got=got, promotable=list(b["await"]), **det)
+                    raise _Abort()
+            cfg = dict(rec["trial"].config) if sugg.config is None else dict(sugg.config)
+            rec["trial"] = _trial(tid, cfg)
+        else:
+            if b["cur"] > 0 and promotes(b) and b["await"]:
+                b["await"].pop()  # DEHB without pause / resume: a new trial continues the promoted configuration
+            tr = _trial(next_id, sugg.config)
+            lib_call("on_trial_add", lambda: sched.on_trial_add(tr), trial=next_id)
+            T[next_id] = rec = {"trial": tr, "epoch": 0}
+            next_id += 1
+        job = ref.hand_out(b)
+        job.update(number=njobs, reports=0, resumed=is_resume)
+        rec.update(status="running", job=job)
+        njobs += 1
+        # the library's own record of the job
+        view = _sync_lib_view(sched, dehb)
+        slot = view["pending"].get(tid)
+        if not open_clause:
+            ok = slot is not None and (slot[0], slot[1], slot[3]) == (job["bracket"], job["rung"], job["level"])
+            if not M.check(clause, ok, ctx, reason="pending slot recorded for the job is not (bracket, rung, level) of the bracket rule", recorded=slot, **det):
+                raise _Abort()
+
+    def do_report(tid):
+        rec = T[tid]
+        job = rec["job"]
+        e = rec["epoch"] + 1
+        rec["epoch"] = e
+        job["reports"] += 1
+        m = float(rs.rand())
+        res = {METRIC: m, RESOURCE: e}
+        dec = lib_call("on_trial_result", lambda: sched.on_trial_result(rec["trial"], dict(res)), trial=tid, result=res)
+        if e < job["level"]:
+            expected = D.CONTINUE
+        elif dehb and not (pr and job["bracket"] == 0):
+            expected = D.STOP
+        else:
+            expected = D.PAUSE
+        if not open_clause and not M.check(Y_DECIDE, dec == expected, ctx, reason="decision differs", step=step, trial=tid, result=res, got=dec, expected=expected, job=job):
+            raise _Abort()
+        if dec in (D.STOP, D.PAUSE):
+            lib_call("on_trial_remove", lambda: sched.on_trial_remove(rec["trial"]), trial=tid)
+            rec["status"] = "paused" if dec == D.PAUSE else "stopped"
+            ref.result(job, tid, m)
+            if tid in failed:
+                failed.remove(tid)  # a failed trial that was promoted for lack of survivors and now reported
+
+    def do_fail(tid, why):
+        rec = T[tid]
+        job = rec["job"]
+        before = _sync_lib_view(sched, dehb)
+        lib_call("on_trial_error", lambda: sched.on_trial_error(rec["trial"]), trial=tid, point=why)
+        after = _sync_lib_view(sched, dehb)
+        ref.result(job, tid, None)
+        M.tally("sync failure " + why)
+        det = {"step": step, "failed_trial": tid, "point": why, "job": job, "failed_before": list(failed)}
+        if open_clause:
+            failed.append(tid)
+            rec["status"] = "failed"
+            return
+        # the failed job: no pending slot left, its slot counts as reported (reference: rung index / open slots)
+        slot = before["pending"].get(tid)
+        b = ref.B[job["bracket"]]
+        want_state = (job["bracket"], b["cur"], 0 if b["cur"] >= len(b["rungs"]) else b["assigned"] - b["reported"])
+        got_state = after["state"][job["bracket"]]
+        M.check(Y_SLOT, tid not in after["pending"] and str(tid) not in after["pending"], ctx, reason="failed trial still has a pending slot", pending_after=after["pending"], **det)
+        M.check(Y_SLOT, tuple(got_state) == want_state, ctx, reason="bracket of the failed job: (bracket, current rung, slots still waited for) differs -- the bracket still waits for the failed job?", got=got_state, expected=want_state, **det)
+        # everyone else
+        ob = {t: v for t, v in before["pending"].items() if t != tid}
+        oa = {t: v for t, v in after["pending"].items() if t != tid}
+        M.check(Y_OTHERS, ob == oa, ctx, reason="pending slots of other trials changed", others_before=ob, others_after=oa, **det)
+        mine = None if slot is None else (slot[0], slot[1], slot[2])
+        changed = {k: (v, after["rungs"].get(k)) for k, v in before["rungs"].items() if k != mine and after["rungs"].get(k) != v}
+        M.check(Y_OTHERS, not changed, ctx, reason="rung entries of other slots changed", changed={str(k): v for k, v in changed.items()}, **det)
+        ob = [s for s in before["state"] if s[0] != job["bracket"]]
+        oa = [s for s in after["state"][: len(before["state"])] if s[0] != job["bracket"]]
+        M.check(Y_OTHERS, ob == oa, ctx, reason="other brackets changed", before=ob, after=oa, **det)
+        failed.append(tid)
+        rec["status"] = "failed"
+
+    def may_fail(rec):
+        if not spec.get("constrained", True):
+            return True
+        b = ref.B[rec["job"]["bracket"]]
+        r = rec["job"]["rung"]
+        return b["nfailed"] + 1 <= ref.size(b, r) - ref.size(b, r + 1)
+
+    def point_of(rec):
+        job = rec["job"]
+        return ("resumed-" if job["resumed"] else "") + ("before" if job["reports"] == 0 else "between")
+
+    try:
+        for step in range(1, spec["steps"] + 1):
+            running = [t for t, rec in T.items() if rec["status"] == "running"]
+            hit = [t for t in running if T[t]["job"]["number"] in forced and point_of(T[t]).endswith(forced[T[t]["job"]["number"]]) and (T[t]["job"]["reports"] > 0 or forced[T[t]["job"]["number"]] == "before")]
+            # 'between' needs a job with at least two epochs; otherwise it degrades to 'before'
+            for t in running:
+                j = T[t]["job"]
+                if j["number"] in forced and forced[j["number"]] == "between" and j["reports"] == 0 and j["level"] - T[t]["epoch"] < 2:
+                    hit.append(t)
+            if hit:
+                t = hit[0]
+                del forced[T[t]["job"]["number"]]
+                if may_fail(T[t]):
+                    do_fail(t, point_of(T[t]))
+                continue
+            if len(running) < W and (not running or rs.rand() < 0.5):
+                do_suggest()
+                continue
+            if not running:
+                continue
+            t = running[int(rs.randint(len(running)))]
+            if T[t]["job"]["number"] not in forced and rs.rand() < spec["pfail"] and may_fail(T[t]):
+                do_fail(t, point_of(T[t]))
+            else:
+                do_report(t)
+    except _Abort:
+        pass
+
+
+def _part_sync(M, tier, rs):
+    quick = tier == "quick"
+    n = 0
+    # enumerated: every placement of one or two failing jobs among the first jobs x point of life, small systems
+    small = [
+        [[(3, 1), (1, 3)]],
+        [[(3, 1), (2, 2), (1, 4)], [(2, 2), (1, 4)], [(1, 4)]],
+        [[(4, 2), (2, 4)], [(2, 4)]],
+    ]
+    njob = 6 if quick else 8
+    placements = [(a,) for a in range(njob)] + [(a, b) for a in range(njob) for b in range(a + 1, njob) if not quick or (a + b) % 3 == 0]
+    for si, systems in enumerate(small):
+        for who in placements:
+            for point in ("before", "between"):
+                for W in (2, 3) if quick else (1, 2, 3, 4):
+                    n += 1
+                    if quick and n % 2 and len(who) == 2:
+                        continue
+                    spec = dict(kind="sync", systems=systems, mode=("min", "max")[n % 2], searcher=("random", "bayesopt")[n % 5 == 0], workers=W, steps=70, pfail=0.0, forced={w: point for w in who}, constrained=(n % 3 != 0), seed=n % 13)
+                    _sync_scenario(M, dict(family="sync-enumerated", **spec), spec)
+    # random: custom and geometric systems, unconstrained failures included
+    cases = [("sync", [[(6, 1), (3, 2), (1, 4)], [(4, 2), (2, 4)], [(3, 4)]]), ("sync", [[(5, 2), (4, 3), (2, 5), (1, 6)], [(3, 3), (2, 5), (1, 6)]]), ("geometric", (1, 9, 3, None)), ("geometric", (1, 8, 2, 2)), ("geometric", (1, 4, 2, None))]
+    for k in range(90 if quick else 700):
+        kind, what = cases[k % len(cases)]
+        spec = dict(kind=kind, mode=("min", "max")[int(rs.randint(2))], searcher=("random", "bayesopt")[k % 7 == 3], workers=int(rs.choice([1, 2, 3, 5])), steps=int(rs.randint(60, 200)), pfail=float(rs.choice([0.05, 0.15, 0.4])), constrained=bool(k % 3), seed=int(rs.randint(0, 10 ** 4)))
+        spec["systems" if kind == "sync" else "geo"] = what
+        _sync_scenario(M, dict(family="sync-random", **spec), spec)
+    # DEHB: failures keep enough survivors (the other families are the dehb/... clauses)
+    firsts = [[(9, 1), (3, 3), (1, 9)], [(8, 1), (4, 2), (2, 4), (1, 8)]]
+    for fi, first in enumerate(firsts):
+        for who in [(a,) for a in range(0, 14, 1 if not quick else 2)] + [(0, 9), (2, 10), (9, 12)]:
+            for point in ("before", "between"):
+                n += 1
+                spec = dict(kind="dehb", first=first, mode=("min", "max")[n % 2], searcher=("random_encoded", "random", "bayesopt")[n % 3] if n % 4 == 0 else "random_encoded", workers=(2, 3, 4)[n % 3], steps=150, pfail=0.0, forced={w: point for w in who}, constrained=True, pause_resume=(n % 3 != 1), seed=n % 13)
+                _sync_scenario(M, dict(family="dehb-enumerated", **spec), spec)
+    for k in range(30 if quick else 250):
+        spec = dict(kind="dehb", first=firsts[k % 2], mode=("min", "max")[int(rs.randint(2))], searcher=("random_encoded", "random")[k % 5 == 0], workers=int(rs.choice([1, 2, 4])), steps=int(rs.randint(100, 260)), pfail=float(rs.choice([0.05, 0.15])), constrained=True, pause_resume=bool(k % 3), seed=int(rs.randint(0, 10 ** 4)))
+        _sync_scenario(M, dict(family="dehb-random", **spec), spec)
+    # families of their own
+    for k in range(2 if quick else 6):
+        spec = dict(kind="dehb", first=[(3, 1), (2, 2), (1, 4)], mode=("min", "max")[(k // 2) % 2], searcher="random_encoded", workers=2 if k % 2 == 0 else 1, steps=80, pfail=0.0, forced={0: "before", 1: "before"} if k % 2 == 0 else {6: "before", 7: "before"}, constrained=False, pause_resume=True, seed=k, open_clause=D_FEW)
+        _sync_scenario(M, dict(family="dehb-too-few-survivors", **spec), spec)
+
+
+# ---------------------------------------------------------------------------------------------------------------
+# part D: PopulationBasedTraining, MOASHA, MedianStoppingRule
+# ---------------------------------------------------------------------------------------------------------------
+def _pbt_view(sched):
+    recs = {}
+    for t, st in sched._trial_state.items():
+        ltt = getattr(st, "last_train_time", None)
+        recs[int(t)] = (None if st.last_score is None else float(st.last_score), float(st.last_perturbation_time), bool(st.stopped), None if ltt is None else float(ltt))
+    stack = [(int(t), _hp(c, ("lr", "wd"))) for t, c in sched._trial_decisions_stack]
+    return {"records": recs, "stack": stack}
+
+
+def _moasha_view(sched):
+    rungs = []
+    for bi, br in enumerate(sched._brackets):
+        for milestone, recorded in br._rungs:
+            for t, metrics in recorded.items():
+                rungs.append((bi, float(milestone), int(t), tuple(sorted((k, float(v)) for k, v in metrics.items()))))
+    return {"rungs": sorted(rungs), "brackets": sorted((int(t), sched._brackets.index(b)) for t, b in sched._trial_info.items())}
+
+
+def _median_view(sched):
+    res = {float(k): [float(x) for x in v] for k, v in sched.sorted_results.items()}
+    per = {int(t): [float(x) for x in v] for t, v in getattr(sched, "trial_to_results", {}).items()}
+    return {"sorted": res, "per_trial": per}
+
+
+def _other_scenario(M, ctx, spec):
+    """spec: kind ('pbt' | 'moasha' | 'median'), workers, steps, pfail, seed, mode, max_t + kind specific"""
+    L = _lib()
+    D = L["SchedulerDecision"]
+    M.scenario(ctx)
+    M.sample(ctx)
+    kind, mode, max_t = spec["kind"], spec["mode"], spec["max_t"]
+    NOEXC = P_NOEXC if kind == "pbt" else M_NOEXC
+    np.random.seed(spec["seed"])  # MOASHA draws from the global generator
+    try:
+        if kind == "pbt":
+            cs = {"lr": L["uniform"](0.0, 1.0), "wd": L["uniform"](0.0, 1.0), MRA: max_t}
+            sched = L["PopulationBasedTraining"](cs, metric=METRIC, mode=mode, resource_attr=RESOURCE, max_t=max_t, population_size=spec["workers"], perturbation_interval=spec["interval"], quantile_fraction=spec["fraction"], random_seed=spec["seed"], search_options={"debug_log": False})
+            view = _pbt_view
+        elif kind == "moasha":
+            cs = {"lr": L["uniform"](0.0, 1.0), MRA: max_t}
+            sched = L["MOASHA"](cs, metrics=[METRIC, METRIC2], mode=mode, time_attr=RESOURCE, max_t=max_t, grace_period=1, reduction_factor=spec["rf"], brackets=spec["brackets"])
+            view = _moasha_view
+        else:
+            cs = {"lr": L["uniform"](0.0, 1.0), MRA: max_t}
+            inner = L["FIFOScheduler"](cs, searcher="random", metric=METRIC, mode=mode, random_seed=spec["seed"], search_options={"debug_log": False})
+            sched = L["MedianStoppingRule"](inner, resource_attr=RESOURCE, running_average=spec["running_average"], grace_time=spec["grace_time"], grace_population=spec["grace_population"], rank_cutoff=spec["cutoff"])
+            view = _median_view
+    except Exception:
+        M.check(NOEXC, False, ctx, reason="constructor raised", traceback=_tb())
+        return
+    rs = np.random.RandomState(spec["seed"] * 31 + 3)
+    W = spec["workers"]
+    T, failed = {}, []
+    next_id, step = 0, 0
+    med = {}  # time-step -> list of (trial, value) : reference of the median rule
+    hist = {}  # trial -> values in the scheduler's sign convention
+
+    def lib_call(what, fn, **det):
+        try:
+            out = fn()
+        except Exception:
+            M.check(NOEXC, False, ctx, reason=what + " raised", traceback=_tb(), **dict(dict(step=step, failed_so_far=list(failed)), **det))
+            raise _Abort()
+        M.check(NOEXC, True, ctx)
+        return out
+
+    def do_suggest():
+        nonlocal next_id
+        with contextlib.redirect_stdout(io.StringIO()):
+            sugg = lib_call("suggest", lambda: sched.suggest(next_id), asking_for_trial=next_id)
+        if sugg is None or not sugg.spawn_new_trial_id:
+            M.check(P_DECIDE if kind == "pbt" else M_DECIDE, False, ctx, reason="suggest must start a new trial", step=step, got=str(sugg))
+            raise _Abort()
+        if kind == "pbt":
+            src = sugg.checkpoint_trial_id
+            M.check(P_SOURCE, src is None or int(src) not in failed, ctx, reason="new trial is told to start from the checkpoint of a failed trial", step=step, new_trial=next_id, checkpoint_of=src, failed_so_far=list(failed))
+        tr = _trial(next_id, sugg.config)
+        with contextlib.redirect_stdout(io.StringIO()):
+            lib_call("on_trial_add", lambda: sched.on_trial_add(tr), trial=next_id)
+        T[next_id] = {"trial": tr, "status": "running", "epoch": 0}
+        next_id += 1
+
+    def do_report(tid):
+        rec = T[tid]
+        e = rec["epoch"] + 1
+        rec["epoch"] = e
+        res = {METRIC: float(rs.rand()), METRIC2: float(rs.rand()), RESOURCE: e}
+        dec = lib_call("on_trial_result", lambda: sched.on_trial_result(rec["trial"], dict(res)), trial=tid, result=res)
+        if kind == "pbt":
+            ok = dec in (D.CONTINUE, D.STOP) and (dec == D.STOP if e >= max_t else True)
+            if e < max_t and e - rec.get("last_sync", 0) < spec["interval"]:
+                ok = ok and dec == D.CONTINUE
+            elif e < max_t:
+                rec["last_sync"] = e
+            M.check(P_DECIDE, ok, ctx, reason="illegal decision", step=step, trial=tid, result=res, got=dec)
+        elif kind == "moasha":
+            milestones = [spec["rf"] ** k for k in range(12) if spec["rf"] ** k < max_t]
+            if e >= max_t:
+                expected = {D.STOP}
+            elif e not in milestones:
+                expected = {D.CONTINUE}
+            else:
+                expected = {D.CONTINUE, D.STOP}
+            M.check(M_DECIDE, dec in expected, ctx, reason="illegal decision", step=step, trial=tid, result=res, got=dec, expected=sorted(expected))
+        else:
+            v = res[METRIC] * (-1 if mode == "max" else 1)
+            hist.setdefault(tid, []).append(v)
+            if spec["running_average"]:
+                v = float(np.mean(hist[tid]))
+            expected = set()
+            for drop_failed in (False, True):
+                others = [x for t, x in med.get(e, []) if not (drop_failed and t in failed)]
+                n = len(others) + 1
+                rank = sum(x < v for x in others) / float(n)
+                grace = n < spec["grace_population"] or e < spec["grace_time"]
+                if grace or rank < spec["cutoff"] or _close(rank, spec["cutoff"]):
+                    expected.add(D.CONTINUE)
+                if not grace and (rank > spec["cutoff"] or _close(rank, spec["cutoff"])):
+                    expected.add(D.STOP)
+            med.setdefault(e, []).append((tid, v))
+            if e >= max_t:
+                expected = {D.CONTINUE, D.STOP}  # the trial ends here anyway
+            M.check(M_DECIDE, dec in expected, ctx, reason="decision differs from the median rule", step=step, trial=tid, result=res, got=dec, expected=sorted(expected), failed_so_far=list(failed))
+        if dec == D.STOP or e >= max_t:
+            if dec == D.STOP:
+                lib_call("on_trial_remove", lambda: sched.on_trial_remove(rec["trial"]), trial=tid)
+            else:
+                lib_call("on_trial_complete", lambda: sched.on_trial_complete(rec["trial"], dict(res)), trial=tid)
+            rec["status"] = "stopped"
+
+    def do_fail(tid):
+        rec = T[tid]
+        before = view(sched)
+        lib_call("on_trial_error", lambda: sched.on_trial_error(rec["trial"]), trial=tid)
+        after = view(sched)
+        M.tally(kind + " failure " + ("before" if rec["epoch"] == 0 else "between"))
+        det = {"step": step, "failed_trial": tid, "failed_before": list(failed)}
+        if kind == "pbt":
+            ob = {t: v for t, v in before["records"].items() if t != tid}
+            oa = {t: v for t, v in after["records"].items() if t != tid}
+            M.check(P_OTHERS, ob == oa and before["stack"] == after["stack"], ctx, reason="population records of other trials (or the queue of clone decisions) changed", before=before, after=after, **det)
+        elif kind == "moasha":
+            ob = [x for x in before["rungs"] if x[2] != tid]
+            oa = [x for x in after["rungs"] if x[2] != tid]
+            M.check(M_OTHERS, ob == oa and [x for x in before["brackets"] if x[0] != tid] == [x for x in after["brackets"] if x[0] != tid], ctx, reason="rung entries / bracket assignment of other trials changed", before=before, after=after, **det)
+        else:
+            ob = {t: v for t, v in before["per_trial"].items() if t != tid}
+            oa = {t: v for t, v in after["per_trial"].items() if t != tid}
+            want = {}
+            for e, xs in med.items():
+                want[float(e)] = sorted(x for t, x in xs)
+            ok = ob == oa and all(sorted(after["sorted"].get(e, [])) == xs or sorted(after["sorted"].get(e, [])) == sorted(x for t, x in med[int(e)] if t != tid and t not in failed) for e, xs in want.items())
+            M.check(M_OTHERS, ok, ctx, reason="recorded results of other trials changed", before=before, after=after, **det)
+        failed.append(tid)
+        rec["status"] = "failed"
+
+    try:
+        forced = dict(spec.get("forced", {}))
+        for step in range(1, spec["steps"] + 1):
+            running = [t for t, rec in T.items() if rec["status"] == "running"]
+            hit = [t for t in running if t in forced and (T[t]["epoch"] == 0 if forced[t] == "before" else T[t]["epoch"] >= forced[t])]
+            if hit:
+                del forced[hit[0]]
+                do_fail(hit[0])
+                continue
+            if len(running) < W and (not running or rs.rand() < 0.5):
+                do_suggest()
+                continue
+            if not running:
+                continue
+            t = running[int(rs.randint(len(running)))]
+            if t not in forced and rs.rand() < spec["pfail"]:
+                do_fail(t)
+            else:
+                do_report(t)
+    except _Abort:
+        pass
+
+
+def _median_norepeat_scenario(M, ctx, spec):
+    """MedianStoppingRule around FIFOScheduler + RandomSearcher(allow_duplicates=True, restrict_configurations): the
+    wrapped searcher promises not to suggest the configuration of a failed trial again"""
+    L = _lib()
+    M.scenario(ctx)
+    M.sample(ctx)
+    allowed = spec["restrict"]
+    try:
+        inner = L["FIFOScheduler"](_fin_space(), searcher="random", metric=METRIC, mode="min", random_seed=spec["seed"], points_to_evaluate=[], search_options={"debug_log": False, "allow_duplicates": True, "restrict_configurations": [dict(c) for c in allowed]})
+        sched = L["MedianStoppingRule"](inner, resource_attr=RESOURCE)
+        failed_cfg = []
+        for tid in range(spec["n_ask"]):
+            sugg = sched.suggest(tid)
+            det = {"step": tid, "failed_configurations": list(failed_cfg)}
+            if all(_hp(c) in failed_cfg for c in allowed):
+                M.check(M_MEDIAN_NOREP, sugg is None, ctx, reason="only failed configurations remain, but a configuration was suggested", got=None if sugg is None else sugg.config, **det)
+            if sugg is None:
+                break
+            if not M.check(M_MEDIAN_NOREP, _hp(sugg.config) not in failed_cfg, ctx, reason="configuration of a failed trial suggested again (on_trial_error is not passed on to the wrapped scheduler)", got=sugg.config, **det):
+                break
+            tr = _trial(tid, sugg.config)
+            sched.on_trial_add(tr)
+            if tid in spec["fail"]:
+                sched.on_trial_error(tr)
+                failed_cfg.append(_hp(sugg.config))
+            else:
+                sched.on_trial_result(tr, {METRIC: 0.5, RESOURCE: 1})
+                sched.on_trial_complete(tr, {METRIC: 0.5, RESOURCE: 1})
+    except Exception:
+        M.check(M_MEDIAN_NOREP, False, ctx, reason="raised", traceback=_tb())
+
+
+def _part_others(M, tier, rs):
+    quick = tier == "quick"
+    n = 0
+    for who in [(0,), (1,), (2,), (3,), (0, 1), (1, 2), (0, 3), (0, 1, 2)]:
+        for point in ("before", 1, 2):
+            n += 1
+            forced = {w: point for w in who}
+            spec = dict(kind="pbt", workers=4, steps=120, pfail=0.0, seed=n % 9, mode=("min", "max")[n % 2], max_t=6 + n % 3, interval=1 + n % 2, fraction=(0.25, 0.5)[n % 2], forced=forced)
+            _other_scenario(M, dict(family="pbt-enumerated", **spec), spec)
+            spec = dict(kind="moasha", workers=4, steps=100, pfail=0.0, seed=n % 9, mode=("min", "max")[n % 2], max_t=9, rf=3, brackets=1 + n % 2, forced=forced)
+            _other_scenario(M, dict(family="moasha-enumerated", **spec), spec)
+            spec = dict(kind="median", workers=4, steps=120, pfail=0.0, seed=n % 9, mode=("min", "max")[n % 2], max_t=5, running_average=bool(n % 2), grace_time=1 + n % 2, grace_population=2 + n % 3, cutoff=(0.5, 0.3)[n % 2], forced=forced)
+            _other_scenario(M, dict(family="median-enumerated", **spec), spec)
+    for k in range(30 if quick else 300):
+        seed = int(rs.randint(0, 10 ** 4))
+        pfail = float(rs.choice([0.05, 0.15, 0.3]))
+        W = int(rs.randint(2, 7))
+        spec = dict(kind="pbt", workers=W, steps=int(rs.randint(80, 220)), pfail=pfail, seed=seed, mode=("min", "max")[k % 2], max_t=int(rs.randint(4, 10)), interval=int(rs.randint(1, 3)), fraction=float(rs.choice([0.25, 0.4, 0.5])))
+        _other_scenario(M, dict(family="pbt-random", **spec), spec)
+        spec = dict(kind="moasha", workers=W, steps=int(rs.randint(80, 220)), pfail=pfail, seed=seed, mode=("min", "max")[k % 2], max_t=(9, 8)[k % 2], rf=(3, 2)[k % 2], brackets=int(rs.randint(1, 3)))
+        _other_scenario(M, dict(family="moasha-random", **spec), spec)
+        spec = dict(kind="median", workers=W, steps=int(rs.randint(80, 220)), pfail=pfail, seed=seed, mode=("min", "max")[k % 2], max_t=int(rs.randint(3, 7)), running_average=bool(rs.randint(2)), grace_time=int(rs.randint(1, 3)), grace_population=int(rs.randint(2, 6)), cutoff=float(rs.choice([0.5, 0.25, 0.7])))
+        _other_scenario(M, dict(family="median-random", **spec), spec)
+    six = _all6()
+    for k in range(4 if quick else 12):
+        size = 1 + k % 3
+        restrict = [six[int(i)] for i in sorted(np.random.RandomState(50 + k).choice(6, size=size, replace=False))]
+        spec = dict(restrict=restrict, fail=set(range(0, 12)) if k % 2 == 0 else {0, 2, 3, 5, 7}, n_ask=12, seed=k)
+        _median_norepeat_scenario(M, dict(family="median-wrapped-searcher-promise", restrict=restrict, fail=sorted(spec["fail"]), n_ask=12, seed=k), spec)
+
+
+# ---------------------------------------------------------------------------------------------------------------
+# part E: the real Tuner on an in-memory back end with scripted failures
+# ---------------------------------------------------------------------------------------------------------------
+class _Stuck(Exception):
+    pass
+
+
+_BACKEND = None
+
+
+def _backend_class():
+    global _BACKEND
+    if _BACKEND is not None:
+        return _BACKEND
+    L = _lib()
+    from pathlib import Path
+
+    Status, TrialResult, STAMP = L["Status"], L["TrialResult"], L["ST_WORKER_TIMESTAMP"]
+
+    class ScriptedBackend(L["TrialBackend"]):
+        """One poll = one tick: every polled trial that is in progress either writes one report or ends.
+        ``script[(trial_id, run)] = (how, k)``: run ``run`` of the trial (0 = first start, +1 per resume) ends after
+        ``k`` reports of that run with ``how`` in 'fail' (status Failed), 'fail-with-report' (the k-th report and the
+        status Failed arrive in one poll), 'stopped-outside' (status Stopped, nobody asked for it).  Without an entry
+        the run goes on to ``config['epochs']`` (or ``default_epochs``) and completes with its last report."""
+
+        def __init__(self, script, default_epochs, max_polls):
+            super().__init__()
+            self.script, self.default_epochs, self.max_polls = dict(script), default_epochs, max_polls
+            self.rec, self.run, self.run_reports, self.epoch = {}, {}, {}, {}
+            self.clock, self.polls = 0, 0
+            self.events = []  # (poll, what, trial_id, extra)
+            self.starved = []
+
+        def _schedule(self, trial_id, config):
+            if trial_id not in self.rec:
+                self.rec[trial_id] = TrialResult(trial_id=trial_id, config=dict(config), creation_time=datetime(2024, 1, 1), status=Status.in_progress, metrics=[])
+                self.run[trial_id], self.epoch[trial_id] = 0, 0
+                self.events.append((self.polls, "start", trial_id, dict(config)))
+            else:
+                self.run[trial_id] += 1
+                self.rec[trial_id].config = dict(config)
+                self.rec[trial_id].status = Status.in_progress
+                self.events.append((self.polls, "resume", trial_id, dict(config)))
+            self.run_reports[trial_id] = 0
+
+        def _report(self, trial_id):
+            r = self.rec[trial_id]
+            self.epoch[trial_id] += 1
+            self.run_reports[trial_id] += 1
+            self.clock += 1
+            e = self.epoch[trial_id]
+            v = ((trial_id * 0.6180339887 + e * 0.7548776662) % 1.0 + 1e-3 * e)
+            r.metrics.append({METRIC: float(v), METRIC2: float((v * 7.0) % 1.0), RESOURCE: e, STAMP: self.clock})
+
+        def _tick(self, trial_id):
+            r = self.rec[trial_id]
+            if r.status != Status.in_progress:
+                return
+            fate = self.script.get((trial_id, self.run[trial_id]))
+            k = self.run_reports[trial_id]
+            if fate is not None and fate[0] in ("fail", "stopped-outside") and k >= fate[1]:
+                r.status = Status.failed if fate[0] == "fail" else Status.stopped
+                self.events.append((self.polls, fate[0], trial_id, {"run": self.run[trial_id], "after_reports": k}))
+                return
+            self._report(trial_id)
+            if fate is not None and fate[0] == "fail-with-report" and k + 1 >= fate[1]:
+                r.status = Status.failed
+                self.events.append((self.polls, "fail", trial_id, {"run": self.run[trial_id], "after_reports": k + 1, "with_report": True}))
+                return
+            target = r.config.get(MRA, self.default_epochs)
+            if self.epoch[trial_id] >= target:
+                r.status = Status.completed
+                self.events.append((self.polls, "completed", trial_id, None))
+
+        def fetch_status_results(self, trial_ids):
+            self.polls += 1
+            if self.polls > self.max_polls:
+                raise _Stuck("more than %d polls" % self.max_polls)
+            busy = [t for t, r in self.rec.items() if r.status == Status.in_progress]
+            missing = [t for t in busy if t not in trial_ids]
+            if missing:
+                self.starved.append((self.polls, missing))
+            for t in sorted(trial_ids):
+                self._tick(t)
+            return super().fetch_status_results(trial_ids)
+
+        def _all_trial_results(self, trial_ids):
+            return [self.rec[t] for t in trial_ids]
+
+        def _stop_trial(self, trial_id, result):
+            r = self.rec[trial_id]
+            self.events.append((self.polls, "stop-asked", trial_id, r.status))
+            if r.status == Status.in_progress:
+                r.status = Status.stopped
+
+        def _pause_trial(self, trial_id, result):
+            self.events.append((self.polls, "pause-asked", trial_id, self.rec[trial_id].status))
+            self.rec[trial_id].status = Status.paused
+
+        def _resume_trial(self, trial_id):
+            pass
+
+        def copy_checkpoint(self, src_trial_id, tgt_trial_id):
+            self.events.append((self.polls, "copy-checkpoint", tgt_trial_id, src_trial_id))
+
+        def delete_checkpoint(self, trial_id):
+            pass
+
+        def busy_trial_ids(self):
+            return [(t, r.status) for t, r in self.rec.items() if r.status == Status.in_progress]
+
+        def stdout(self, trial_id):
+            return []
+
+        def stderr(self, trial_id):
+            return []
+
+        def entrypoint_path(self):
+            return Path("c13_native_script.py")
+
+    _BACKEND = ScriptedBackend
+    return _BACKEND
+
+
+def _spy(sched, calls):
+    for name in ("on_trial_add", "on_trial_result", "on_trial_remove", "on_trial_complete", "on_trial_error"):
+        orig = getattr(sched, name)
+
+        def wrapper(*a, _orig=orig, _name=name, **kw):
+            trial = kw.get("trial", a[0] if a else None)
+            calls.append((_name, int(trial.trial_id)))
+            return _orig(*a, **kw)
+
+        setattr(sched, name, wrapper)
+    orig_suggest = sched.suggest
+
+    def suggest(trial_id, _orig=orig_suggest):
+        out = _orig(trial_id)
+        calls.append(("suggest", None if out is None else (bool(out.spawn_new_trial_id), out.checkpoint_trial_id)))
+        return out
+
+    sched.suggest = suggest
+
+
+def _make_tuner_scheduler(spec):
+    """-> (scheduler, default_epochs, promises_no_repeat, hp_keys)"""
+    L = _lib()
+    kind, seed, mode = spec["scheduler"], spec["seed"], spec.get("mode", "min")
+    max_t = spec.get("max_t", 9)
+    so = {"debug_log": False}
+    if spec.get("searcher") == "bayesopt":
+        so["num_init_random"] = 1000
+    if kind == "fifo":
+        cs = _fin_space() if spec.get("finite") else {"x": L["uniform"](0.0, 1.0), "y": L["uniform"](0.0, 1.0)}
+        so["allow_duplicates"] = spec.get("allow_dup", False)
+        if spec.get("restrict") is not None:
+            so["restrict_configurations"] = [dict(c) for c in spec["restrict"]]
+        s = L["FIFOScheduler"](cs, searcher=spec["searcher"], metric=METRIC, mode=mode, random_seed=seed, search_options=so, points_to_evaluate=[])
+        promise = spec["searcher"] in ("random", "bayesopt") or not spec.get("allow_dup", False)
+        return s, spec.get("epochs", 3), promise
+    if kind == "hyperband":
+        cs = {"x": L["uniform"](0.0, 1.0), "y": L["uniform"](0.0, 1.0), MRA: max_t}
+        s = L["HyperbandScheduler"](cs, searcher=spec["searcher"], type=spec["type"], metric=METRIC, mode=mode, resource_attr=RESOURCE, max_resource_attr=MRA, grace_period=1, reduction_factor=3, brackets=spec.get("brackets", 1), searcher_data=spec.get("searcher_data", "rungs"), random_seed=seed, search_options=so, points_to_evaluate=[])
+        return s, max_t, True
+    if kind == "sync":
+        systems = spec["systems"]
+        cs = {"x": L["uniform"](0.0, 1.0), "y": L["uniform"](0.0, 1.0), MRA: systems[0][-1][1]}
+        s = L["SynchronousHyperbandScheduler"](cs, bracket_rungs=[list(map(tuple, x)) for x in systems], searcher=spec["searcher"], metric=METRIC, mode=mode, resource_attr=RESOURCE, max_resource_attr=MRA, random_seed=seed, search_options=so)
+        return s, systems[0][-1][1], True
+    if kind == "geometric":
+        cs = {"x": L["uniform"](0.0, 1.0), "y": L["uniform"](0.0, 1.0), MRA: max_t}
+        s = L["SynchronousGeometricHyperbandScheduler"](cs, grace_period=1, reduction_factor=3, brackets=1, searcher=spec["searcher"], metric=METRIC, mode=mode, resource_attr=RESOURCE, max_resource_attr=MRA, random_seed=seed, search_options=so)
+        return s, max_t, True
+    if kind == "dehb":
+        first = [tuple(x) for x in spec["first"]]
+        cs = {"x": L["uniform"](0.0, 1.0), "y": L["uniform"](0.0, 1.0), "z": L["uniform"](0.0, 1.0), MRA: first[-1][1]}
+        s = L["DifferentialEvolutionHyperbandScheduler"](cs, rungs_first_bracket=first, metric=METRIC, mode=mode, resource_attr=RESOURCE, max_resource_attr=MRA, random_seed=seed, search_options=so, support_pause_resume=spec.get("pause_resume", True))
+        return s, first[-1][1], False
+    if kind == "pbt":
+        cs = {"lr": L["uniform"](0.0, 1.0), "wd": L["uniform"](0.0, 1.0), MRA: max_t}
+        s = L["PopulationBasedTraining"](cs, metric=METRIC, mode=mode, resource_attr=RESOURCE, max_t=max_t, population_size=spec["workers"], perturbation_interval=1, quantile_fraction=0.25, random_seed=seed, search_options=so)
+        return s, max_t, False
+    if kind == "moasha":
+        cs = {"lr": L["uniform"](0.0, 1.0), MRA: max_t}
+        s = L["MOASHA"](cs, metrics=[METRIC, METRIC2], mode=mode, time_attr=RESOURCE, max_t=max_t, grace_period=1, reduction_factor=3, brackets=1)
+        return s, max_t, False
+    if kind == "median":
+        cs = {"lr": L["uniform"](0.0, 1.0), MRA: max_t}
+        inner = L["FIFOScheduler"](cs, searcher="random", metric=METRIC, mode=mode, random_seed=seed, search_options=so)
+        s = L["MedianStoppingRule"](inner, resource_attr=RESOURCE, grace_population=3)
+        return s, max_t, False
+    raise ValueError(kind)
+
+
+_TUNER_COUNT = [0]
+
+
+def _tuner_scenario(M, ctx, spec):
+    """spec: scheduler spec + workers, script {(trial, run): (how, k)}, max_failures, n_start (stop criterion: this
+    many trials were started), own_clause (optional)"""
+    L = _lib()
+    Status = L["Status"]
+    M.scenario(ctx)
+    M.sample(ctx)
+    np.random.seed(spec["seed"])
+    _TUNER_COUNT[0] += 1
+    calls = []
+    GOES_ON = spec.get("own_clause") or T_GOES_ON
+    try:
+        sched, default_epochs, promise = _make_tuner_scheduler(spec)
+        backend = _backend_class()(spec["script"], default_epochs, spec.get("max_polls", 400))
+        _spy(sched, calls)
+        n_start = spec["n_start"]
+        tuner = L["Tuner"](
+            trial_backend=backend, scheduler=sched, stop_criterion=lambda st: st.num_trials_started >= n_start, n_workers=spec["workers"], sleep_time=0.0,
+            max_failures=spec["max_failures"], save_tuner=False, callbacks=[], tuner_name="c13-native-%d" % _TUNER_COUNT[0], suffix_tuner_name=False,
+            results_update_interval=1e9, print_update_interval=1e9, asynchronous_scheduling=spec.get("asynchronous", True),
+        )
+    except Exception:
+        M.check(GOES_ON, False, ctx, reason="set-up raised", traceback=_tb())
+        return
+    error, tb = None, None
+    try:
+        with contextlib.redirect_stdout(io.StringIO()):
+            tuner.run()
+    except BaseException as ex:  # noqa
+        if isinstance(ex, KeyboardInterrupt):
+            raise
+        error, tb = ex, _tb()
+    ev = backend.events
+    failed = [t for _, what, t, _ in ev if what == "fail"]
+    outside = [t for _, what, t, _ in ev if what == "stopped-outside"]
+    ended = set(failed) | set(outside)
+    det = {"failed_trials": failed, "stopped_outside": outside, "max_failures": spec["max_failures"], "polls": backend.polls, "trials_started": len(backend.rec), "error": None if error is None else "%s: %s" % (type(error).__name__, str(error)[:300])}
+    for what in ("fail", "stopped-outside"):
+        for _, w, t, extra in ev:
+            if w == what:
+                M.tally("tuner " + what + (" after resume" if extra["run"] > 0 else "") + (" before first report" if extra["after_reports"] == 0 else " between reports"))
+    # --- notifications
+    stuck = isinstance(error, _Stuck)
+    for t in sorted(ended):
+        n = sum(1 for c in calls if c == ("on_trial_error", t))
+        M.check(T_ONCE, n == 1, ctx, reason="on_trial_error called %d times for the trial" % n, trial=t, calls_for_trial=[c[0] for c in calls if c[1] == t and c[0] != "suggest"], **det)
+        pos = [i for i, c in enumerate(calls) if c == ("on_trial_error", t)]
+        later = [c[0] for c in calls[pos[0] + 1:] if c[0] != "suggest" and c[1] == t] if pos else []
+        M.check(T_QUIET, not later, ctx, reason="scheduler callbacks for the trial after its failure was reported", trial=t, later_calls=later, **det)
+    healthy_err = sorted({c[1] for c in calls if c[0] == "on_trial_error" and c[1] not in ended})
+    M.check(T_QUIET, not healthy_err, ctx, reason="on_trial_error for trials that neither failed nor were stopped from outside", trials=healthy_err, **det)
+    # --- never resumed, never suggested again
+    resumed_after = []
+    for i, (_, what, t, _) in enumerate(ev):
+        if what in ("fail", "stopped-outside"):
+            resumed_after += [t for _, w2, t2, _ in ev[i + 1:] if w2 == "resume" and t2 == t]
+    if not spec.get("own_clause"):
+        M.check(T_NORESUME, not resumed_after and not (error is not None and "Cannot resume" in str(error)), ctx, reason="a failed / externally stopped trial was resumed", resumed=resumed_after, **det)
+    if promise:
+        keys = ("a", "b", "x", "y")
+        bad, failed_cfg = [], []
+        for _, what, t, extra in ev:
+            if what == "start" and _hp(extra, keys) in failed_cfg:
+                bad.append((t, _hp(extra, keys)))
+            if what == "fail":
+                failed_cfg.append(_hp(backend.rec[t].config, keys))
+        M.check(T_NOREP, not bad, ctx, reason="a trial was started with the configuration of a failed trial", started=bad, **det)
+    # --- the others
+    M.check(T_OTHERS, not backend.starved, ctx, reason="trials in progress were not polled (poll number, trials)", starved=backend.starved[:5], **det)
+    if error is None:
+        left = [t for t, r in backend.rec.items() if r.status == Status.in_progress]
+        M.check(T_OTHERS, not left, ctx, reason="trials still in progress after the run returned", trials=left, **det)
+    # --- the limit
+    nf, nout, mf = len(failed), len(outside), spec["max_failures"]
+    exhausted = any(c == ("suggest", None) for c in calls)
+    if nf > mf:
+        M.check(T_LIMIT, error is not None and not stuck, ctx, reason="more failed trials than max_failures, but the run returned without an error", traceback=tb, **det)
+        poll_exceeded = sorted(p for p, what, _, _ in ev if what == "fail")[mf]
+        M.check(T_LIMIT, backend.polls <= poll_exceeded + 1, ctx, reason="the run went on polling for more than one round after the limit was exceeded", exceeded_in_poll=poll_exceeded, **det)
+        if error is not None and not stuck:
+            ids = {int(x) for x in re.findall(r"\d+", str(error))}
+            started = set(backend.rec)
+            ok = bool(ids & set(failed)) and not ((ids & started) - set(failed))
+            M.check(T_NAMES, ok, ctx, reason="error message does not name a failed trial (or names a trial that did not fail)", numbers_in_message=sorted(ids), traceback=tb, **det)
+    elif nf + nout <= mf or nout == 0:
+        ok = error is None and (len(backend.rec) >= spec["n_start"] or exhausted)
+        M.check(GOES_ON, ok, ctx, reason=("run raised" if error is not None else "run returned before its stop criterion (%d trials started) although failures do not exceed max_failures" % spec["n_start"]), traceback=tb, space_exhausted=exhausted, **det)
+    # else: failed <= max_failures < failed + stopped from outside: the statement does not say whether those count
+
+
+def _part_tuner(M, tier, rs):
+    quick = tier == "quick"
+    six = _all6()
+    n = 0
+
+    def run(family, spec):
+        ctx = dict(family=family, **{k: v for k, v in spec.items() if k != "script"})
+        ctx["script"] = {"%d/run%d" % k: list(v) for k, v in spec["script"].items()}
+        _tuner_scenario(M, ctx, spec)
+
+    hows = ("fail", "stopped-outside")
+    # FIFO: which trials fail x where x max_failures around the number of failures
+    for who in [(0,), (1,), (3,), (0, 1), (1, 3), (0, 2, 4), (1, 2, 3, 5)]:
+        for k_rep in (0, 1, 2):
+            for delta in (-1, 0, 1):
+                for searcher in ("random", "grid", "bayesopt"):
+                    n += 1
+                    if quick and n % 3 == 1:
+                        continue
+                    how = "fail-with-report" if (k_rep > 0 and n % 4 == 0) else "fail"
+                    script = {(t, 0): (how, k_rep) for t in who}
+                    if n % 5 == 0:
+                        script[(6, 0)] = ("stopped-outside", k_rep)
+                    mf = max(0, len(who) + delta)
+                    finite = searcher != "random" or n % 2 == 0
+                    spec = dict(scheduler="fifo", searcher=searcher, finite=finite, allow_dup=(searcher != "grid" and n % 4 < 2), restrict=None, workers=1 + n % 3, script=script, max_failures=mf + (1 if (6, 0) in script and delta >= 0 else 0), n_start=12, seed=n % 11, epochs=3)
+                    run("tuner-fifo", spec)
+    # several trials fail in one and the same poll: the number of failures jumps past max_failures
+    for mf in (0, 1, 2, 3):
+        for W in (3, 4):
+            n += 1
+            script = {(t, 0): ("fail", n % 2) for t in range(3)}
+            spec = dict(scheduler="fifo", searcher="random", finite=False, allow_dup=False, restrict=None, workers=W, script=script, max_failures=mf, n_start=12, seed=n % 11, epochs=3)
+            run("tuner-fifo-simultaneous-failures", spec)
+    # FIFO over few allowed configurations: all of them fail, the space is used up
+    for k in range(3 if quick else 12):
+        size = 1 + k % 3
+        restrict = [six[int(i)] for i in sorted(np.random.RandomState(70 + k).choice(6, size=size, replace=False))]
+        script = {(t, 0): ("fail", t % 2) for t in range(0, 30)}
+        spec = dict(scheduler="fifo", searcher=("random", "bayesopt")[k % 2], finite=True, allow_dup=True, restrict=restrict, workers=1 + k % 2, script=script, max_failures=50, n_start=20, seed=k, epochs=2)
+        run("tuner-fifo-all-allowed-fail", spec)
+    # multi-fidelity and population schedulers
+    def mf_specs():
+        yield dict(scheduler="hyperband", type="stopping", searcher="random")
+        yield dict(scheduler="hyperband", type="promotion", searcher="random")
+        yield dict(scheduler="hyperband", type="stopping", searcher="bayesopt", searcher_data="all")
+        yield dict(scheduler="hyperband", type="promotion", searcher="bayesopt", brackets=2)
+        yield dict(scheduler="sync", systems=[[(3, 1), (1, 3)]], searcher="random")
+        yield dict(scheduler="sync", systems=[[(4, 1), (2, 2), (1, 4)]], searcher="bayesopt")
+        yield dict(scheduler="geometric", searcher="random")
+        yield dict(scheduler="dehb", first=[(9, 1), (3, 3), (1, 9)], searcher="random_encoded")
+        yield dict(scheduler="dehb", first=[(9, 1), (3, 3), (1, 9)], searcher="random_encoded", pause_resume=False)
+        yield dict(scheduler="pbt", searcher="random")
+        yield dict(scheduler="moasha", searcher="random")
+        yield dict(scheduler="median", searcher="random")
+
+    def constrain(base, script):
+        """synchronous schedulers: keep at least as many survivors in every rung as the next rung has slots (the
+        other case is the family of clause T_SYNC_FEW): new trials come in blocks of the size of the base rung"""
+        kind = base["scheduler"]
+        if kind not in ("sync", "geometric", "dehb"):
+            return dict(script)
+        rungs = base["systems"][0] if kind == "sync" else [(9, 1), (3, 3), (1, 9)]
+        block, spare0 = rungs[0][0], rungs[0][0] - rungs[1][0]
+        out = {}
+        for (t, run), v in script.items():
+            if kind == "dehb" and t >= block:
+                continue
+            if run == 0 and t % block < spare0:
+                out[(t, run)] = v
+            elif run == 1 and t % block == 1 and len(rungs) > 2 and not (kind == "dehb" and not base.get("pause_resume", True)):
+                out[(t, run)] = v
+            elif run == 1 and len(rungs) == 2:
+                out[(t, run)] = v
+            elif run >= 2:
+                out[(t, run)] = v
+        return out
+
+    placements = [
+        {(0, 0): ("fail", 0)}, {(1, 0): ("fail", 1)}, {(2, 0): ("stopped-outside", 0)}, {(0, 0): ("fail", 0), (4, 0): ("fail", 1)},
+        {(1, 0): ("fail", 0), (3, 0): ("stopped-outside", 1), (6, 0): ("fail", 0)},
+        {(t, 1): ("fail", 0) for t in range(0, 12, 3)}, {(t, 1): ("fail", 1) for t in range(1, 12, 3)}, {(t, 1): ("stopped-outside", 0) for t in range(2, 12, 3)},
+        {(0, 0): ("fail", 0), **{(t, 1): ("fail", 1) for t in range(1, 12, 3)}}, {(t, 2): ("fail", 0) for t in range(0, 12)},
+    ]
+    for base in mf_specs():
+        for pi, script in enumerate(placements):
+            for delta in (-1, 0, 2):
+                n += 1
+                if quick and (n % 3 == pi % 3):
+                    continue
+                script = constrain(base, script)
+                nfail = sum(1 for v in script.values() if v[0] != "stopped-outside")
+                nout = len(script) - nfail
+                mf = max(0, nfail + delta) + (nout if delta >= 0 else 0)
+                W = 3 if base["scheduler"] in ("sync", "geometric") else 2 + n % 3
+                spec = dict(base, workers=W, script=dict(script), max_failures=mf, n_start=22 if base["scheduler"] in ("dehb", "geometric") else 14, seed=n % 11, mode=("min", "max")[n % 2], max_polls=900)
+                run("tuner-" + base["scheduler"] + ("-" + base["type"] if "type" in base else ""), spec)
+    # random scripts
+    for k in range(60 if quick else 500):
+        base = list(mf_specs())[k % 12] if k % 4 else dict(scheduler="fifo", searcher=("random", "grid", "bayesopt")[k % 3], finite=True, allow_dup=bool(k % 8 < 4) and k % 3 != 1, restrict=None, epochs=3)
+        script = {}
+        for t in range(14):
+            if rs.rand() < 0.25:
+                script[(t, 0)] = (hows[int(rs.rand() < 0.2)], int(rs.randint(0, 3)))
+        for t in range(14):
+            if rs.rand() < 0.2:
+                script[(t, 1)] = (hows[int(rs.rand() < 0.2)], int(rs.randint(0, 2)))
+        script = constrain(base, script)
+        nfail = sum(1 for v in script.values() if v[0] != "stopped-outside")
+        mf = int(rs.choice([0, 1, max(0, nfail - 1), nfail, nfail + 3, 50]))
+        W = 3 if base["scheduler"] in ("sync", "geometric") else int(rs.randint(1, 5))
+        spec = dict(base, workers=W, script=script, max_failures=mf, n_start=int(rs.randint(8, 24)), seed=int(rs.randint(0, 10 ** 4)), mode=("min", "max")[k % 2], max_polls=900)
+        run("tuner-random", spec)
+    # synchronous rung with too few survivors: the scheduler promotes a failed trial (documented), the tuner has to cope
+    few = [
+        (dict(scheduler="sync", systems=[[(3, 1), (2, 2), (1, 4)]], searcher="random"), {(0, 0): ("fail", 0), (1, 0): ("fail", 0)}),
+        (dict(scheduler="geometric", searcher="random"), {(t, 1): ("fail", 1) for t in range(0, 9)}),
+        (dict(scheduler="sync", systems=[[(2, 1), (1, 2)]], searcher="random"), {(0, 0): ("fail", 0), (1, 0): ("fail", 0)}),
+    ]
+    for k, (base, script) in enumerate(few if not quick else few[:2]):
+        spec = dict(base, workers=3, script=script, max_failures=50, n_start=14, seed=k, mode="min", max_polls=900, own_clause=T_SYNC_FEW)
+        run("tuner-sync-too-few-survivors", spec)
+
+
+# ---------------------------------------------------------------------------------------------------------------
+def monitor_failures(tier="quick", seed=0):
+    tier = "thorough" if tier == "thorough" else "quick"
+    rs = np.random.RandomState(seed)
+    M = Recorder()
+    old_level = logging.root.manager.disable
+    old_env = os.environ.get("SYNETUNE_FOLDER")
+    tmp = tempfile.mkdtemp(prefix="c13-native-")
+    os.environ["SYNETUNE_FOLDER"] = tmp
+    logging.disable(logging.CRITICAL)
+    try:
+        with contextlib.redirect_stderr(io.StringIO()), contextlib.redirect_stdout(io.StringIO()):
+            _lib()
+            for part in (_part_searchers, _part_hyperband, _part_sync, _part_others, _part_tuner):
+                part(M, tier, np.random.RandomState(int(rs.randint(0, 2 ** 31 - 1))))
+    finally:
+        logging.disable(old_level)
+        if old_env is None:
+            os.environ.pop("SYNETUNE_FOLDER", None)
+        else:
+            os.environ["SYNETUNE_FOLDER"] = old_env
+        shutil.rmtree(tmp, ignore_errors=True)
+    empty = [c for c in CLAUSES if M.counts[c] == 0]
+    serious = [v for v in M.viol if v["clause"] not in KNOWN_OPEN]
+    if empty and not serious:
+        raise RuntimeError("clauses without a single check (an empty check must not look green): %s" % empty)
+    quick = tier == "quick"
+    summary = (
+        "tier=%s seed=%d; %d scenarios (%s); bounds: finite space of 6 configurations / 1-3 allowed configurations, <= %d suggestions; "
+        "HyperbandScheduler stopping/promotion x random/GP searcher, rung levels 1,3|9 and 1,2,4|8, 1-2 brackets, 2-5 workers, <= %d events; "
+        "synchronous Hyperband (custom + geometric systems, <= 4 rungs) and DEHB ((9,1),(3,3),(1,9) / (8,1),(4,2),(2,4),(1,8)), 1-5 workers, <= %d events, "
+        "every placement of 1-2 failing jobs among the first %d jobs x before / between reports; PBT, MOASHA, median rule 2-6 workers <= 220 events; "
+        "Tuner.run on a scripted in-memory back end: 12 scheduler set-ups x 10 failure placements (before first report / between reports / after 1st and 2nd resume / "
+        "stopped from outside) x max_failures = failures-1, failures, failures+2, 1-4 workers, <= 24 trials; known-open families kept apart: %s; checks per clause: %s"
+        + ("; NOT exercised because scenarios ended early at the violations reported: %s" % empty if empty else "")
+    ) % (tier, seed, M.distinct, ", ".join("%s %d" % (k, v) for k, v in sorted(M.stats.items()) if " failure " not in k and not k.startswith("tuner fail") and not k.startswith("tuner stopped")), 19, 160, 260, 6 if quick else 8, sorted(KNOWN_OPEN), M.counts)
+    return {"evaluations": int(sum(M.counts.values())), "distinct": int(M.distinct), "clauses": list(CLAUSES), "violations": M.viol, "samples": M.samples[:4], "summary": summary}
